@@ -12,9 +12,11 @@ def run(ctx):
         r = ctx.model_check("Resolver/QCacheModel.tla", cfgname, workers=8, timeout=600)
         if r.violation:
             raise vlib.MachineryError("QCacheModel.tla violates %s" % r.violation)
+    # requests that differ only in type (incl. types without a mnemonic) or class
+    types = {"module": "Gen_C08.tla", "cfg": "Gen_C08_types.cfg", "name": "types"}
     if ctx.quick:
-        gens = [{"module": "Gen_C08.tla", "cfg": "Gen_C08_quick.cfg", "name": "bfs"}]
+        gens = [{"module": "Gen_C08.tla", "cfg": "Gen_C08_quick.cfg", "name": "bfs"}, types]
     else:
         gens = [{"module": "Gen_C08.tla", "cfg": "Gen_C08_thorough.cfg", "name": "bfs"},
-                {"module": "Gen_C08.tla", "cfg": "Gen_C08_sim.cfg", "name": "sim", "simulate": 2500, "depth": 16}]
+                {"module": "Gen_C08.tla", "cfg": "Gen_C08_sim.cfg", "name": "sim", "simulate": 2500, "depth": 16}, types]
     simlib.engine_check(ctx, gens, FACETS, labels=("c08.",), selftests=mutators.QCACHE)
